@@ -25,7 +25,7 @@ RULE = ('(a) every token sequence of length 1..3 (thorough: 4) over a 44-token a
         'deletions, duplications, transpositions and truncations of ~200 valid queries + malformations labelled by construction '
         '(unbalanced bracket, dangling/unknown operator, ORDER BY position out of range or misplaced, non-numeric LIMIT, '
         'unknown format, no column, uninterpretable regex/date/boolean/function argument, also after the same text was used '
-        'by another operator); (c) every scalar function x argument-kind vectors of arity 0..3; (d) argv flags of main. '
+        'by another operator; multi-byte literals in all three quoting styles; NaN/inf sort keys with LIMIT); (c) every scalar function x argument-kind vectors of arity 0..3; (d) argv flags of main. '
         'non-trivial = the run did not end with status 0')
 MC_NOTE = ('states = token sequences explored breadth-first by length, transitions = append-token edges; every state is '
            'executed on the real parser/searcher (batch hook = the crate\'s own exec_search) and every flagged state plus a '
@@ -97,6 +97,18 @@ def labelled():
     for qy in ('name, rand(a) from .', 'name, rand(1, b) from .', 'name, rand(5, 1) from .', 'name, rand(0) from .',
                "name, format_size(size, 'q') from .", "name, format_size(size, '%.99999999999') from ."):
         out.append(([qy], 'bad-function-argument', 'diag'))
+    # unusual but legal input: must not crash (no status expectation)
+    for qq in ("'", '"', '`'):
+        for txt in ('café.txt', '中文', 'a é b', 'é', 'naïve', '🙂x', 'x\\'):
+            lit = qq + txt + qq
+            for qy in ('name from . where name = %s' % lit, 'name, %s from .' % lit, 'name from . where name like %s' % lit,
+                       'name, length(%s) from .' % lit, 'name from %s' % lit, 'name from . where name =~ %s order by 1' % lit):
+                out.append(([qy], 'exotic-literal', None))
+    for key in ('ln(size - 100)', 'sqrt(0 - size)', 'size / 0', 'size % 0', '0 / 0', 'log(0 - 1)', 'ln(0)', 'exp(1000)', 'power(0 - 8, 0.5)', '0 - exp(1000)'):
+        for tail in ('', ' desc'):
+            for lim in ('', ' limit 1', ' limit 2', ' limit 3', ' limit 100'):
+                out.append((['name, %s from . order by 2%s%s' % (key, tail, lim)], 'nan-sort-key', None))
+                out.append((['name from . order by %s%s, name%s' % (key, tail, lim)], 'nan-sort-key', None))
     return out
 
 
@@ -283,7 +295,7 @@ def eval_group(env, group, tier):
         lab = labelled()
         for argv, label, expect in lab[group['range'][0]:group['range'][1]]:
             one(argv, label, expect, layer='lab-' + label)
-            one(argv[0].split(' ') if "'" not in argv[0] else argv, label, expect, layer='lab-' + label)
+            one(argv[0].split(' ') if not any(ch in argv[0] for ch in "'\"`") else argv, label, expect, layer='lab-' + label)
     elif kind == 'func':
         fc = list(func_cases(tier))
         for argv in fc[group['range'][0]:group['range'][1]]:
